@@ -387,6 +387,11 @@ def set_attr(it, o, name, v):
 def get_item(it, o, k):
     if isinstance(o, Sym) and hasattr(o, "getitem"):
         return o.getitem(it, k)
+    if isinstance(o, ClassVal) and o.enum_kind and isinstance(k, str):
+        # EnumClass["NAME"]: member lookup by name
+        if k in o.members:
+            return o.attrs[k] if k in o.attrs else o.members[k]
+        raise PyRaise(it.make_exc("KeyError", k))
     if isinstance(o, SObj):
         f, _ = o.cls.lookup("__getitem__")
         if f is not None:
